@@ -50,6 +50,8 @@ type vAgentOpts struct {
 	NoDatapath   bool // do not start a datapath server (datapath down)
 	Dnn          string
 	GtpuMon      bool
+	ReuseBess    *vBess  // start against this (still populated) datapath server instead of a new one
+	ReuseP4      *vP4Srv // same for UP4
 }
 
 type vAgent struct {
@@ -113,7 +115,9 @@ func vStartAgent(o vAgentOpts) (*vAgent, error) {
 
 	var err error
 	if o.UP4 {
-		if !o.NoDatapath {
+		if o.ReuseP4 != nil {
+			a.p4 = o.ReuseP4
+		} else if !o.NoDatapath {
 			a.p4, err = vNewP4Srv("127.0.0.1:0")
 			if err != nil {
 				return nil, err
@@ -137,7 +141,10 @@ func vStartAgent(o vAgentOpts) (*vAgent, error) {
 		conf.Mode = "af_packet"
 		conf.AccessIface.IfName = "lo"
 		conf.CoreIface.IfName = "lo"
-		if !o.NoDatapath {
+		if o.ReuseBess != nil {
+			a.bess = o.ReuseBess
+			*bessIP = a.bess.addr
+		} else if !o.NoDatapath {
 			a.bess, err = vNewBess("127.0.0.1:0")
 			if err != nil {
 				return nil, err
